@@ -734,7 +734,7 @@ def native_search(g, wd, env, n, seed):
     if os.path.exists(outf):
         os.unlink(outf)
     rc, out, err, wall, to = sh([exe, "--search", str(n), "--seed", str(seed), "--out", outf],
-                                timeout=max(60, g["timeout"]), env=native_env(env))
+                                timeout=max(1200, g["timeout"]), env=native_env(env))
     inputs = {}
     if os.path.exists(outf):
         for line in open(outf):
